@@ -33,8 +33,9 @@ type xcase struct {
 	Param  string          `json:"param"`
 	Value  []byte          `json:"value"` // the extension value; nil with NoExt => certificate without SGX extension
 	NoExt  bool            `json:"no_ext"`
-	NExt   int             `json:"n_ext"`  // total number of certificate extensions (6 is what Intel issues)
-	Expect string          `json:"expect"` // "exact" | "error" | "sane"
+	NExt   int             `json:"n_ext"`             // total number of certificate extensions (6 is what Intel issues)
+	ExtPos int             `json:"ext_pos,omitempty"` // k > 0: the SGX extension is the k-th of the certificate's extensions (0: the third, as below)
+	Expect string          `json:"expect"`            // "exact" | "error" | "sane"
 	P      *world.Platform `json:"platform"`
 	Skip   map[string]bool `json:"skip,omitempty"` // elements not to compare in "sane" mode (duplicated / absent)
 }
@@ -55,6 +56,12 @@ func (c *xcase) cert() *x509.Certificate {
 	}
 	for len(crt.Extensions) < n {
 		crt.Extensions = append(crt.Extensions, dummyExt(len(crt.Extensions)+2))
+	}
+	if c.ExtPos > 0 && !c.NoExt && c.ExtPos <= len(crt.Extensions) {
+		sgx := crt.Extensions[2]
+		rest := append(append([]pkix.Extension{}, crt.Extensions[:2]...), crt.Extensions[3:]...)
+		k := c.ExtPos - 1
+		crt.Extensions = append(append(append([]pkix.Extension{}, rest[:k]...), sgx), rest[k:]...)
 	}
 	return crt
 }
@@ -618,6 +625,14 @@ func c13(x *mon.Ctx) {
 	add("top-level-count", "3", "error", base, world.Seq(mkTop(tcbE)[:3]...), nil)
 	add("top-level-count", "0", "error", base, world.Seq(), nil)
 	good := world.SgxExtension(base)
+	// the SGX extension is found by its OID wherever it stands among the certificate's six extensions (first and last included)
+	for pos := 1; pos <= 6; pos++ {
+		for rep := 0; rep < 3; rep++ {
+			p := randPlat(r)
+			pos := pos
+			add("sgx-extension-position", fmt.Sprintf("%d-of-6#%d", pos, rep), "exact", p, world.SgxExtension(p), func(c *xcase) { c.ExtPos = pos })
+		}
+	}
 	add("no-sgx-extension", "6-other-extensions", "error", base, nil, func(c *xcase) { c.NoExt = true })
 	add("no-sgx-extension", "no-extensions", "error", base, nil, func(c *xcase) { c.NoExt, c.NExt = true, -1 })
 	for _, n := range []int{3, 5, 7, 12} {
@@ -769,6 +784,7 @@ func c13(x *mon.Ctx) {
 	x.Require("unread-field-of-any-type", 60, 0, 60)
 	x.Require("platform-certificate-wrong-type", 0, 105, 105)
 	x.Require("pcesvn-out-of-range", 0, 11, 11)
+	x.Require("sgx-extension-position", 18, 0, 18)
 	x.Require("component-wider-than-a-word", 0, 18, 18)
 	x.Require("truncated", 0, 300, 300)
 	x.Require("signed-certificate", 100, 10, 300)
